@@ -60,6 +60,21 @@ class Boom(RuntimeError):
     pass
 
 
+class BoomKey(Boom, KeyError):
+    """user code often fails with a built-in exception type (a failed lookup...): it means nothing to the dispatcher"""
+
+
+class BoomAttribute(Boom, AttributeError):
+    pass
+
+
+class BoomStop(Boom, StopIteration):
+    pass
+
+
+BOOMS = [Boom, BoomKey, BoomAttribute, BoomStop]
+
+
 class Tok:
     """Payload of one dispatched occurrence.  Occurrences of the same event compare (and hash) EQUAL although
     they are distinct objects: two equal events dispatched one after the other are still two events."""
@@ -295,7 +310,7 @@ class Execution:
                 # (no local variable may hold the exception: exception -> traceback -> this frame -> local would be
                 # a reference cycle that keeps the handler of this frame alive until the next cycle collection)
                 if kind == 'RuntimeError':
-                    self.current_exc = Boom('injected')
+                    self.current_exc = BOOMS[k % len(BOOMS)]('injected')
                 elif kind == 'Quit':
                     self.current_exc = desper.Quit()
                 else:
